@@ -750,6 +750,23 @@ def bool_atom(draw, depth, loopvar, fields):
         return ['exists', draw(st.one_of(s0(), st.sampled_from(FIELD_KEYS + ['nosuch']).map(lambda k: ['field', k])))]
     if c == 10:
         return ['lit', draw(st.booleans())] if draw(st.booleans()) else draw(st.sampled_from([['lit', True, 'true'], ['lit', False, 'false'], ['lit', True, 'TRUE']]))
+    if c == 11 and loopvar is None and depth > 0 and draw(st.integers(0, 3)) == 0:
+        # := inside a comprehension / generator binds in the enclosing expression (Python semantics) and is read afterwards
+        v = draw(st.sampled_from(['r', 'o']))
+        src = ['name', draw(st.sampled_from(['orders', 'receipts']))]
+        thr = ['num', draw(st.sampled_from(CONSTS))]
+        shape = draw(st.integers(0, 2))
+        if shape == 0:
+            first = ['anygen', ['cmp', ['attr', ['walrus', 'hit', ['name', v]], 'amount'], [[draw(st.sampled_from(['>', '<=', '=='])), thr]]], v, src, None]
+            after = ['cmp', ['attr', 'hit', 'item'], [[draw(st.sampled_from(['==', '!='])), ['str', draw(st.sampled_from(ROW_ITEMS))]]]]
+        elif shape == 1:
+            first = ['cmp', ['len', ['listcomp', ['walrus', 'last', ['attr', v, 'amount']], v, src, None]], [['>', ['num', 0]]]]
+            after = ['cmp', ['var', 'last'], [[draw(st.sampled_from(['>', '<', '=='])), thr]]]
+        else:
+            first = ['cmp', ['walrus', 'tot', ['num', 0]], [['==', ['num', 0]]]]
+            first = ['and', [first, ['cmp', ['len', ['listcomp', ['walrus', 'tot', ['bin', '+', ['var', 'tot'], ['attr', v, 'amount']]], v, src, None]], [['>=', ['num', 0]]]]]]
+            after = ['cmp', ['var', 'tot'], [[draw(st.sampled_from(['>', '<', '=='])), thr]]]
+        return ['and', [first, after]]
     if c == 11 and loopvar is None and depth > 0:
         v = draw(st.sampled_from(['r', 'o']))
         src = ['name', draw(st.sampled_from(['orders', 'receipts']))]
